@@ -206,6 +206,59 @@ def evaluate(chk: core.Check, plist, pairs=True):
                          {'base': b['params'], 'partner': p, 'differing': bad, 'base_value': Ob[OUT[bad[0]]], 'partner_value': Or[OUT[bad[0]]]})
 
 
+def _same_file_pair(job):
+    """base and scaled partner through the public client in ONE process, the partner written over the same input file"""
+    base, part, path = job
+    from pathlib import Path
+    from hip_ra_x import HipRaXClient
+    from hip_ra import HipRaInputParameters
+    import contextlib, io, logging
+    logging.disable(logging.CRITICAL)
+    outs = []
+    for p in (base, part):
+        Path(path).write_text(geo.params_to_text(p))
+        with geo.preserved_process_state(), contextlib.redirect_stdout(io.StringIO()), contextlib.redirect_stderr(io.StringIO()):
+            try:
+                res = HipRaXClient().get_hip_ra_result(HipRaInputParameters(Path(path)))
+                outs.append(Path(res.output_file_path).read_text())
+            except Exception as e:  # noqa
+                outs.append(f'ERROR {e}')
+    return outs
+
+
+def report_value(text, label):
+    import re
+    m = re.search(re.escape(label) + r':\s+(-?[\d.]+(?:e[+-]?\d+)?)', text)
+    return float(m.group(1)) if m else None
+
+
+def same_file_pairs(chk: core.Check, n):
+    import os
+    jobs, meta = [], []
+    for k in range(n):
+        p = gen_params(chk.rng)
+        if p['Reservoir Temperature'] <= p['Rejection Temperature']:
+            continue
+        kk = chk.rng.choice([2, 3, 10])
+        which = chk.rng.choice(['Reservoir Area', 'Reservoir Thickness'])
+        q = dict(p)
+        q[which] = p[which] * kk
+        jobs.append((p, q, os.path.join(str(chk.scratch), f'hip_samefile_{k}.txt')))
+        meta.append((which, kk))
+    res = geo.pmap(_same_file_pair, jobs, chk.scratch, workers=4)
+    for (p, q, path), (which, kk), outs in zip(jobs, meta, res):
+        if not isinstance(outs, list) or any(o.startswith('ERROR') for o in outs):
+            chk.tag('same-file/run-failed')
+            continue
+        chk.tag('same-file/' + which.split()[-1])
+        chk.case(('same-file', json.dumps(p, sort_keys=True), which, kk), True)
+        a, b = report_value(outs[0], 'Reservoir Volume (reservoir)'), report_value(outs[1], 'Reservoir Volume (reservoir)')
+        sa, sb = report_value(outs[0], 'Stored Heat (reservoir)'), report_value(outs[1], 'Stored Heat (reservoir)')
+        if a is None or b is None or not math.isclose(b, kk * a, rel_tol=2e-2) or sa is None or sb is None or not math.isclose(sb, kk * sa, rel_tol=2e-2):
+            chk.fail(f'C17/scale/same-file/{which.split()[-1]}', f'after the input file was rewritten with reservoir {which.split()[-1].lower()} x {kk}, the client\'s result did not scale '
+                     '(volume / stored heat as printed)', {'base': p, 'partner': q, 'k': kk, 'volume': [a, b], 'stored_heat': [sa, sb]})
+
+
 def run(chk: core.Check) -> int:
     clean = chk.prove(['GeoVerif.Properties.C17'])
     quick = chk.tier == 'quick'
@@ -213,6 +266,7 @@ def run(chk: core.Check) -> int:
     if kn:
         evaluate(chk, kn, pairs=False)
     evaluate(chk, [gen_params(chk.rng) for _ in range(250 if quick else 5000)])
+    same_file_pairs(chk, 16 if quick else 200)
     if (not clean or chk.breaks) and not chk.failures:
         evaluate(chk, [gen_params(chk.rng) for _ in range(1000)])
     chk.assumptions += ['CoolProp enthalpy / entropy and the utilisation-efficiency interpolation are re-queried by the harness at the run\'s (T, P) through the repository\'s own wrappers',
